@@ -418,6 +418,21 @@ class Facts:
                 break
         return out
 
+    def only_reached_from(self, path, roots, depth=4):
+        """True if body `path` runs only on behalf of the functions in `roots`: it is one of them, a
+        closure/coroutine nested in one, or a helper all of whose crate-local callers are (recursively).
+        Who-may-call rules use this so that extracting a private helper does not move a site out of
+        its allowed set, while a new caller from elsewhere still does."""
+        if depth < 0 or path not in self.bodies:
+            return False
+        if path in roots:
+            return True
+        b = self.bodies[path]
+        if b.kind not in ("fn", "assoc_fn") and b.parent:
+            return self.only_reached_from(b.parent, roots, depth)
+        callers = {cb.path for cb, _, _ in self.callers().get(path, [])} - {path}
+        return bool(callers) and all(self.only_reached_from(c, roots, depth - 1) for c in callers)
+
     # ------------------------------------------------------------------ lookup
     def body(self, path):
         b = self.bodies.get(path)
